@@ -37,6 +37,15 @@ theorem neg_zero : -(zero : R) = zero := by
   rwa [add_zero] at h
 end ResAlg
 
+/-- the one-component instance (used for small concrete examples) -/
+instance : ResAlg Int where
+  zero := 0
+  add_assoc := Int.add_assoc
+  add_comm := Int.add_comm
+  zero_add := Int.zero_add
+  neg_add := Int.add_left_neg
+  sub_def := fun _ _ => Int.sub_eq_add_neg
+
 /-- A workload record: id, node it is recorded on, resources. -/
 structure Wl (R : Type) where
   id : Nat
